@@ -253,7 +253,7 @@ pub(crate) fn sim_load(addr: usize, ord: Option<Ordering>) -> Access {
     };
     let Some((seg, loc, _)) = hit else { return Access::Real };
     let tag = ((seg as u64) << 8) | loc as u64;
-    if !crate::yield_point(EvKind::Point, "load", tag) {
+    if !crate::yield_point(EvKind::Point, crate::TAG_LOAD, tag) {
         return Access::Real;
     }
     let mut s = sh.lock();
@@ -331,7 +331,7 @@ pub(crate) fn sim_store(addr: usize, val: u64, ord: Option<Ordering>) -> bool {
     };
     let Some((seg, loc, _)) = hit else { return false };
     let tag = ((seg as u64) << 8) | loc as u64;
-    if !crate::yield_point(EvKind::Point, "store", tag) {
+    if !crate::yield_point(EvKind::Point, crate::TAG_STORE, tag) {
         // killed at this point: the store does not happen
         return true;
     }
